@@ -40,7 +40,7 @@ PRIM_ATTRS = ('send_signal', 'terminate', 'kill')
 
 
 def check(run, ctx):
-    run.each(ctx, [r1, r2, r3, r4, r5])
+    run.each(ctx, [r1, r2, r3, r4, r5, r6])
 
 
 def raw_signal_calls(tree_or_nodes):
@@ -446,3 +446,31 @@ def r5(run, ctx):
               'only after the stop signal went out and lowered on every exit - a flag left set '
               'makes every later kill of that worker return at once, answered ok, with no signal '
               'sent')
+
+
+def r6(run, ctx):
+    run.rule('R6', "a stop_signal accepted as a designation is converted wherever it is stored")
+    # `set` converts in Watcher.set_opt; `add` hands the validated options straight to the
+    # Watcher constructor, which stores stop_signal as given: that is only right while the
+    # validator lets nothing but integers through for that key
+    from rules import c11
+    types, pre, vo = c11._guaranteed_types(ctx)
+    guar = types.get('stop_signal', {'any'})
+    init = ctx.fn(W + '__init__')
+    from sa.dataflow import reaching_defs
+    rd = reaching_defs(ctx, init)
+    stores = [n for n in ctx.live_nodes(init) if n.kind == 'stmt' and isinstance(n.ast, ast.Assign)
+              and any(isinstance(t, ast.Attribute) and t.attr == 'stop_signal' and
+                      dotted(t.value) == 'self' for t in n.ast.targets)]
+    if not run.need('R6', stores, 'self.stop_signal = ... in Watcher.__init__', init):
+        return
+    for n in stores:
+        converted = all('to_signum(' in a.text() for a in rd.expand(n, n.ast.value))
+        run.check('R6', guar <= {'int'} or converted,
+                  'the constructor stores a signal NUMBER (the validator admits integers only, or '
+                  'the value goes through to_signum)', init, n.ast,
+                  'validate_option admits %s for stop_signal, and Watcher.__init__ stores it '
+                  'unconverted: a watcher added with stop_signal "int" / "SIGINT" keeps the '
+                  'string, and every later stop / kill hands it to os.kill, which raises - the '
+                  'same designation means a signal in `set` and in the file, and nothing here'
+                  % sorted(guar), construct='STOP-SIGNAL-STORED-RAW')
